@@ -137,6 +137,33 @@ def lookup_order(ctx, res):
                facts.loc(facts.func("has_traits_getattro")),
                "the wildcard trait is consulted before normal Python "
                "attribute lookup (methods would be shadowed)")
+    # a wildcard trait is resolved again after the trait_added event: the
+    # listeners may have installed the trait that really governs the name
+    paths, _, g = paths_of(ctx, "get_prefix_trait")
+    n_evt = 0
+    badp = None
+    for p in paths:
+        idx = [i for i, t in enumerate(p.trace) if t[0] == "call"
+               and t[1] == "has_traits_setattro"
+               and any("trait_added" in a for a in t[2])]
+        if not idx or p.outcome[0] != "RETURN" or p.outcome[1] == "0":
+            continue
+        n_evt += 1
+        later = [t[3] for t in p.trace[idx[-1] + 1:] if t[0] == "call"]
+        if p.outcome[1] not in later:
+            badp = p
+    res.instance("get_prefix_trait", facts.loc(facts.func("get_prefix_trait")),
+                 paths_with_trait_added=n_evt)
+    if n_evt == 0:
+        raise AnalysisError("get_prefix_trait: trait_added event not found")
+    res.oblige(badp is None, "get_prefix_trait:relookup-after-trait-added",
+               facts.loc(facts.func("get_prefix_trait")),
+               "get_prefix_trait returns the trait it resolved *before* "
+               "firing trait_added: a listener that installs an instance "
+               "trait for the new name is ignored for this access (and the "
+               "returned pointer is not protected from being replaced)",
+               [f"{CREL}:{l}" for l in dict.fromkeys(badp.lines) if l]
+               if badp else None)
     if sites < 5:
         raise AnalysisError(f"only {sites} lookup sites recognised (floor 5)")
 
